@@ -82,6 +82,27 @@ func LoadGen(repoDir, verifDir string, patterns []string, overlay map[string][]b
 	if err != nil {
 		return nil, err
 	}
+	// resolve "@T" specialised contracts: re-key them as <func>@<dynamic type>
+	for k, c := range g.db.Contracts {
+		if c.SpecDynSrc == "" {
+			continue
+		}
+		var rerr error
+		func() {
+			defer func() {
+				if r := recover(); r != nil {
+					rerr = fmt.Errorf("%v", r)
+				}
+			}()
+			c.SpecDyn = g.resolveType(c.SpecDynSrc, c.File, g.filePkg(c.File)).Go
+		}()
+		delete(g.db.Contracts, k)
+		if rerr != nil || c.SpecDyn == nil {
+			continue // the type's package is not loaded in this run
+		}
+		c.Key = c.BaseKey + "@" + c.SpecDyn.String()
+		g.db.Contracts[c.Key] = c
+	}
 	return g, nil
 }
 
